@@ -378,7 +378,18 @@ pub fn check_pick(c: &EncCase) -> Verdict {
     }
     let dm = match encode_obs(c) {
         EncOutcome::Ok(dm) => dm,
-        EncOutcome::Refused(_) => return Verdict::Pass(Pass::new("pick/refused", false)),
+        EncOutcome::Refused(e) => {
+            // "the symbol picked is the first that is large enough": if plain ASCII encodation (digit pairs,
+            // upper shift) of the message demonstrably fits a listed symbol, one must be picked
+            if c.modes & 1 == 1 {
+                let (prefix, body) = c.expected_prefix();
+                let need = prefix.len() + refimpl::codec::ascii_greedy(body);
+                if let Some(cap) = mask_sorted_caps(c.list).into_iter().find(|x| *x >= need) {
+                    return fail(format!("no symbol is picked ({:?}) although plain ASCII encodation needs {} codewords and the list {} has a symbol with {} data codewords (input of {} bytes: {:?})", e, need, mask_names(c.list), cap, c.data.len(), show(&c.data)));
+                }
+            }
+            return Verdict::Pass(Pass::new("pick/refused", false));
+        }
         EncOutcome::Panic(_) => return Verdict::Pass(Pass::new("pick/encoder-panic(C11)", false)),
     };
     let list = mask_to_list(c.list);
